@@ -411,6 +411,7 @@ typedef struct sim_rank
   size_t              stack_size;
   void               *fake;
   sim_op             *op;
+  sim_op              start;    /* pending operation before the first step */
   int                 cl;
   long                seq;      /* trace sequence */
   long                rseq;     /* request sequence */
@@ -5402,4 +5403,537 @@ schedule (sbuf * rep)
   free (cand);
   free (park);
   return code;
+}
+
+/* ------------------------------------------------------------ run, report */
+
+static const char  *code_names[] =
+  { "OK", "DEADLOCK", "LIVELOCK", "MAXSTEPS", "ABORT", "LEFTOVER", "ERROR",
+  "REPLAY_DIVERGED", "LEAK", "BADOPTS"
+};
+
+const char         *
+simmpi_code_name (int code)
+{
+  return code >= 0 && code <= SIMMPI_BADOPTS ? code_names[code] : "?";
+}
+
+void
+simmpi_opts_default (simmpi_opts * o)
+{
+  memset (o, 0, sizeof (*o));
+  o->nranks = 1;
+  o->max_denials = -1;
+  o->eager_limit = -1;
+}
+
+void
+simmpi_report_free (simmpi_report * rep)
+{
+  if (rep != NULL) {
+    free (rep->text);
+    rep->text = NULL;
+  }
+}
+
+void
+simmpi_reset_keyvals (void)
+{
+  free (KV);
+  KV = NULL;
+  nKV = capKV = 0;
+}
+
+static struct sigaction old_sigabrt;
+
+static void
+on_sigabrt (int sig)
+{
+  (void) sig;
+  if (S.active && S.cur != NULL) {
+    S.abort_rank = S.cur->world;
+    S.abort_code = 134;
+    sb_printf (&S.errors, "[ABORT] rank %d raised SIGABRT (abort () called)\n",
+               S.cur->world);
+    sim_terminate (SIMMPI_ABORT);
+  }
+  signal (SIGABRT, SIG_DFL);
+  raise (SIGABRT);
+}
+
+static int
+load_replay (const char *path)
+{
+  FILE               *f = fopen (path, "r");
+  char                line[256];
+  long                cap = 0;
+
+  if (f == NULL) {
+    return -1;
+  }
+  while (fgets (line, sizeof (line), f) != NULL) {
+    sim_replay          e;
+    if (line[0] == '#' || line[0] == '\n') {
+      continue;
+    }
+    memset (&e, 0, sizeof (e));
+    if (sscanf (line, "%7s %d %d", e.kind, &e.n, &e.v) != 3) {
+      fclose (f);
+      return -1;
+    }
+    if (S.nreplay == cap) {
+      cap = cap ? 2 * cap : 1024;
+      S.replay =
+        (sim_replay *) xrealloc (S.replay, (size_t) cap * sizeof (sim_replay));
+    }
+    S.replay[S.nreplay++] = e;
+  }
+  fclose (f);
+  return 0;
+}
+
+/* what is left in the pools and tables after all ranks returned (or at the
+ * moment the run was stopped) */
+static void
+end_checks (sbuf * rep, simmpi_report * R, int completed)
+{
+  int                 i, j;
+
+  for (i = 0; i < S.ncomms + S.P; i++) {
+    sim_comm           *c =
+      i < S.ncomms ? S.comms[i] : S.selfs[i - S.ncomms];
+    sim_coll           *k;
+    if (c == NULL) {
+      continue;
+    }
+    for (j = 0; j < c->n; j++) {
+      sim_msg            *m;
+      sim_req            *q;
+      for (m = c->uq_head[j]; m != NULL; m = m->next) {
+        R->nleftover_msgs++;
+        if (R->nleftover_msgs <= 50) {
+          sb_printf (rep,
+                     "[LEFTOVER] unreceived message: source=%d dest=%d tag=%d comm=%d bytes=%zu (world ranks %d -> %d)%s\n",
+                     m->src, m->dst, m->tag, c->id, m->nbytes, c->m[m->src],
+                     c->m[m->dst],
+                     m->sreq != NULL ? " [sender still waits]" : "");
+        }
+      }
+      for (q = c->pq_head[j]; q != NULL; q = q->pnext) {
+        (void) q;               /* reported with the request table below */
+      }
+    }
+    for (k = c->colls; k != NULL; k = k->next) {
+      if (completed || k->nentered < c->n) {
+        R->nleftover_colls++;
+        sb_printf (rep,
+                   "[LEFTOVER] collective %s #%ld on comm %d%s: entered by %d of %d ranks, left by %d; missing world ranks",
+                   k->fname, k->seq, c->id, c->internal ? " (window)" : "",
+                   k->nentered, c->n, k->nexited);
+        for (j = 0; j < c->n; j++) {
+          if (!k->entered[j]) {
+            sb_printf (rep, " %d", c->m[j]);
+          }
+        }
+        sb_puts (rep, "\n");
+      }
+    }
+  }
+  for (i = 0; i < S.nreqs; i++) {
+    sim_req            *q = S.reqs[i];
+    if (q == NULL || q->rseq < 0) {
+      continue;
+    }
+    R->nleftover_reqs++;
+    if (R->nleftover_reqs <= 50) {
+      if (q->kind == RK_RECV) {
+        sb_printf (rep,
+                   "[LEFTOVER] request #%ld of rank %d: Irecv source=%d tag=%d comm=%d capacity=%zu %s\n",
+                   q->rseq, q->owner, q->src, q->tag, q->comm->id,
+                   (size_t) q->count * q->dt->size,
+                   q->complete ? "matched but never completed by Wait/Test" :
+                   "never matched");
+      }
+      else if (q->kind == RK_SEND) {
+        sb_printf (rep,
+                   "[LEFTOVER] request #%ld of rank %d: %s send dest=%d tag=%d comm=%d bytes=%zu %s\n",
+                   q->rseq, q->owner, modenames[q->mode], q->dest, q->stag,
+                   q->comm->id, q->nbytes,
+                   q->complete ? "never completed by Wait/Test" :
+                   "never matched");
+      }
+      else {
+        sb_printf (rep,
+                   "[LEFTOVER] request #%ld of rank %d: Ibarrier comm=%d never completed by Wait/Test\n",
+                   q->rseq, q->owner, q->comm->id);
+      }
+    }
+  }
+  /* leaks */
+  for (i = 2; i < S.ncomms; i++) {
+    sim_comm           *c = S.comms[i];
+    if (c == NULL || c->internal || c->nfreed == c->n) {
+      continue;
+    }
+    R->nleaks++;
+    sb_printf (rep,
+               "[LEAK] communicator %d (%s of comm %d, size %d) not freed by world ranks",
+               c->id, c->how, c->parent_id, c->n);
+    for (j = 0; j < c->n; j++) {
+      if (!c->freed[j]) {
+        sb_printf (rep, " %d", c->m[j]);
+      }
+    }
+    sb_puts (rep, "\n");
+  }
+  for (i = 0; i < S.nwins; i++) {
+    sim_win            *w = S.wins[i];
+    if (w->nfreed < w->icomm->n) {
+      R->nleaks++;
+      sb_printf (rep, "[LEAK] window %d on comm %d freed by %d of %d ranks\n",
+                 w->id, w->comm->id, w->nfreed, w->icomm->n);
+    }
+  }
+  for (i = 0; i < nKV; i++) {
+    if (KV[i].alive && KV[i].run == sim_run_counter) {
+      R->nleaks++;
+      sb_printf (rep,
+                 "[LEAK] attribute keyval %d created by rank %d not freed (kept for later runs)\n",
+                 i, KV[i].owner);
+    }
+  }
+  for (i = 0; i < S.nops; i++) {
+    if (S.ops[i]->alive) {
+      R->nleaks++;
+      sb_printf (rep, "[LEAK] user operation %d created by rank %d not freed\n",
+                 i, S.ops[i]->owner);
+    }
+  }
+  for (i = 0; i < S.ndts; i++) {
+    if (S.dts[i]->alive) {
+      R->nleaks++;
+      sb_printf (rep, "[LEAK] datatype %s created by rank %d not freed\n",
+                 S.dts[i]->name, S.dts[i]->owner);
+    }
+  }
+  for (i = 0; i < S.ngroups; i++) {
+    if (S.groups[i]->alive) {
+      R->nleaks++;
+      sb_printf (rep, "[LEAK] group of size %d created by rank %d not freed\n",
+                 S.groups[i]->n, S.groups[i]->owner);
+    }
+  }
+  for (i = 0; i < S.ninfos; i++) {
+    if (S.infos[i]) {
+      R->nleaks++;
+      sb_printf (rep, "[LEAK] info object %d not freed\n", i);
+    }
+  }
+  for (i = 0; i < S.nallocs; i++) {
+    R->nleaks++;
+    sb_printf (rep,
+               "[LEAK] MPI_Alloc_mem block of %zu bytes of rank %d not freed (released now)\n",
+               S.allocs[i].n, S.allocs[i].owner);
+  }
+}
+
+static void
+cleanup (void)
+{
+  int                 i;
+
+  for (i = 0; i < S.P && S.ranks != NULL; i++) {
+    sim_rank           *r = &S.ranks[i];
+    if (r->stack_map != NULL) {
+      if (__asan_unpoison_memory_region) {
+        __asan_unpoison_memory_region (r->stack, r->stack_size);
+      }
+      munmap (r->stack_map, r->stack_map_size);
+    }
+  }
+  free (S.ranks);
+  for (i = 0; i < S.nreqs; i++) {
+    if (S.reqs[i] != NULL) {
+      if (S.reqs[i]->matched != NULL) {
+        msg_free (S.reqs[i]->matched);
+      }
+      free (S.reqs[i]);
+    }
+  }
+  free (S.reqs);
+  for (i = 0; i < S.nwins; i++) {
+    win_destroy (S.wins[i]);
+  }
+  free (S.wins);
+  for (i = 0; i < S.ncomms; i++) {
+    if (S.comms[i] != NULL) {
+      comm_destroy (S.comms[i]);
+    }
+  }
+  free (S.comms);
+  for (i = 0; i < S.P && S.selfs != NULL; i++) {
+    if (S.selfs[i] != NULL) {
+      comm_destroy (S.selfs[i]);
+    }
+  }
+  free (S.selfs);
+  for (i = 0; i < S.ndts; i++) {
+    free (S.dts[i]);
+  }
+  free (S.dts);
+  for (i = 0; i < S.nops; i++) {
+    free (S.ops[i]);
+  }
+  free (S.ops);
+  for (i = 0; i < S.ngroups; i++) {
+    free (S.groups[i]->m);
+    free (S.groups[i]);
+  }
+  free (S.groups);
+  free (S.infos);
+  for (i = 0; i < S.nallocs; i++) {
+    free (S.allocs[i].p);
+  }
+  free (S.allocs);
+  free (S.stamp);
+  free (S.replay);
+  sb_free (&S.line);
+  sb_free (&S.errors);
+  sb_free (&S.warns);
+  if (S.trace != NULL) {
+    fclose (S.trace);
+  }
+  if (S.dlog != NULL) {
+    fclose (S.dlog);
+  }
+  memset (&S, 0, sizeof (S));
+}
+
+int
+simmpi_run (const simmpi_opts * o, simmpi_main_t fn, void *arg,
+            simmpi_report * rep)
+{
+  simmpi_report       R;
+  sbuf                text;
+  int                 i, code, P;
+  int                *members;
+  size_t              stack_size, page = (size_t) sysconf (_SC_PAGESIZE);
+  struct sigaction    sa;
+
+  memset (&R, 0, sizeof (R));
+  memset (&text, 0, sizeof (text));
+  R.abort_rank = -1;
+  if (S.active || o == NULL || fn == NULL || o->nranks < 1
+      || o->adversary < 0 || o->adversary >= SIMMPI_NUM_ADVERSARIES) {
+    R.code = SIMMPI_BADOPTS;
+    sb_puts (&text,
+             S.active ? "simmpi: BADOPTS: simmpi_run is not reentrant\n" :
+             "simmpi: BADOPTS: invalid options\n");
+    goto finish;
+  }
+  if (real_swapcontext == NULL) {
+    /* go around ASan's swapcontext interceptor (we annotate the switches
+     * ourselves, the interceptor only prints a warning) */
+    if (__sanitizer_start_switch_fiber) {
+      void               *h = dlopen ("libc.so.6", RTLD_LAZY | RTLD_NOLOAD);
+      if (h != NULL) {
+        *(void **) (&real_swapcontext) = dlsym (h, "swapcontext");
+        dlclose (h);
+      }
+    }
+    if (real_swapcontext == NULL) {
+      real_swapcontext = swapcontext;
+    }
+  }
+  predt_setup ();
+  memset (&S, 0, sizeof (S));
+  S.o = *o;
+  S.P = P = o->nranks;
+  S.fn = fn;
+  S.arg = arg;
+  S.prng = (u64) o->seed * 0x2545f4914f6cdd1dULL + 0x9e3779b97f4a7c15ULL;
+  S.maxden = o->max_denials < 0 ? 8 : o->max_denials;
+  S.abort_rank = -1;
+  S.victim = -1;
+  sim_run_counter++;
+
+  if (o->replay_log != NULL) {
+    if (load_replay (o->replay_log) != 0) {
+      R.code = SIMMPI_BADOPTS;
+      sb_printf (&text, "simmpi: BADOPTS: cannot read replay log %s\n",
+                 o->replay_log);
+      cleanup ();
+      goto finish;
+    }
+    S.replaying = 1;
+  }
+  if (o->trace_path != NULL) {
+    S.trace = fopen (o->trace_path, "w");
+    if (S.trace == NULL) {
+      R.code = SIMMPI_BADOPTS;
+      sb_printf (&text, "simmpi: BADOPTS: cannot write trace %s: %s\n",
+                 o->trace_path, strerror (errno));
+      cleanup ();
+      goto finish;
+    }
+    setvbuf (S.trace, NULL, _IOFBF, 1 << 16);
+  }
+  if (o->decision_log != NULL) {
+    S.dlog = fopen (o->decision_log, "w");
+    if (S.dlog == NULL) {
+      R.code = SIMMPI_BADOPTS;
+      sb_printf (&text, "simmpi: BADOPTS: cannot write decision log %s: %s\n",
+                 o->decision_log, strerror (errno));
+      cleanup ();
+      goto finish;
+    }
+    setvbuf (S.dlog, NULL, _IOFBF, 1 << 16);
+    fprintf (S.dlog,
+             "# simmpi decision log v1 nranks=%d seed=%lu adversary=%d ppn=%d noncontig=%d\n",
+             P, o->seed, o->adversary, o->ppn, o->noncontig_nodes);
+  }
+
+  S.stamp = (int *) xcalloc ((size_t) P, sizeof (int));
+  members = (int *) xmalloc ((size_t) P * sizeof (int));
+  for (i = 0; i < P; i++) {
+    members[i] = i;
+  }
+  comm_new (P, members, -1, "MPI_COMM_WORLD", 0, 0);    /* idx 0, id 0 */
+  free (members);
+  S.selfs = (sim_comm **) xcalloc ((size_t) P, sizeof (sim_comm *));
+  for (i = 0; i < P; i++) {
+    S.selfs[i] = comm_new (1, &i, -1, "MPI_COMM_SELF", 0, 1);
+  }
+
+  stack_size = (o->stack_kib ? o->stack_kib : 2048) * 1024;
+  stack_size = (stack_size + page - 1) / page * page;
+  S.ranks = (sim_rank *) xcalloc ((size_t) P, sizeof (sim_rank));
+  for (i = 0; i < P; i++) {
+    sim_rank           *r = &S.ranks[i];
+    r->world = i;
+    r->state = RS_READY;
+    r->upoll_epoch = -1;
+    r->start.kind = OP_STEP;
+    r->start.fname = "start";
+    r->op = &r->start;
+    r->stack_map_size = stack_size + page;
+    r->stack_map =
+      (char *) mmap (NULL, r->stack_map_size, PROT_READ | PROT_WRITE,
+                     MAP_PRIVATE | MAP_ANONYMOUS | MAP_NORESERVE, -1, 0);
+    if (r->stack_map == MAP_FAILED) {
+      r->stack_map = NULL;
+      R.code = SIMMPI_BADOPTS;
+      sb_printf (&text, "simmpi: BADOPTS: cannot allocate stacks: %s\n",
+                 strerror (errno));
+      cleanup ();
+      goto finish;
+    }
+    mprotect (r->stack_map, page, PROT_NONE);   /* guard page */
+    r->stack = r->stack_map + page;
+    r->stack_size = stack_size;
+    if (__asan_unpoison_memory_region) {
+      __asan_unpoison_memory_region (r->stack, r->stack_size);
+    }
+    getcontext (&r->ctx);
+    r->ctx.uc_stack.ss_sp = r->stack;
+    r->ctx.uc_stack.ss_size = r->stack_size;
+    r->ctx.uc_link = NULL;
+    makecontext (&r->ctx, rank_trampoline, 0);
+  }
+
+  if (!o->no_sigabrt) {
+    memset (&sa, 0, sizeof (sa));
+    sa.sa_handler = on_sigabrt;
+    sigemptyset (&sa.sa_mask);
+    sa.sa_flags = SA_NODEFER;
+    sigaction (SIGABRT, &sa, &old_sigabrt);
+  }
+
+  S.active = 1;
+  code = schedule (&text);
+  S.active = 0;
+
+  if (!o->no_sigabrt) {
+    sigaction (SIGABRT, &old_sigabrt, NULL);
+  }
+
+  /* -------- report -------- */
+  if (code == SIMMPI_ABORT) {
+    sb_printf (&text, "[ABORT] rank %d aborted the run with code %d at step %ld\n",
+               S.abort_rank, S.abort_code, S.steps);
+  }
+  if (code != SIMMPI_OK) {
+    for (i = 0; i < P; i++) {
+      sb_printf (&text, "  rank %d: ", i);
+      describe_op (&text, &S.ranks[i]);
+      sb_puts (&text, "\n");
+    }
+  }
+  end_checks (&text, &R, code == SIMMPI_OK);
+  if (S.errors.p != NULL) {
+    sb_puts (&text, S.errors.p);
+  }
+  if (S.warns.p != NULL) {
+    sb_puts (&text, S.warns.p);
+  }
+  if (S.replaying && !S.replay_diverged && code == SIMMPI_OK
+      && S.ireplay < S.nreplay) {
+    S.replay_diverged = 1;
+    sb_printf (&text, "[REPLAY] run ended after %ld of %ld logged decisions\n",
+               S.ireplay, S.nreplay);
+  }
+  if (code == SIMMPI_OK) {
+    if (S.replay_diverged) {
+      code = SIMMPI_REPLAY_DIVERGED;
+    }
+    else if (S.nerrors > 0) {
+      code = SIMMPI_ERROR;
+    }
+    else if (R.nleftover_msgs + R.nleftover_reqs + R.nleftover_colls > 0) {
+      code = SIMMPI_LEFTOVER;
+    }
+    else if (o->leak_is_error && R.nleaks > 0) {
+      code = SIMMPI_LEAK;
+    }
+  }
+  R.code = code;
+  R.steps = S.steps;
+  R.decisions = S.ndecisions;
+  R.calls = S.ncalls;
+  R.abort_rank = S.abort_rank;
+  R.abort_code = S.abort_code;
+  R.nerrors = S.nerrors;
+  R.nwarnings = S.nwarns;
+  R.replay_diverged = S.replay_diverged;
+  {
+    sbuf                head;
+    memset (&head, 0, sizeof (head));
+    sb_printf (&head,
+               "simmpi: %s nranks=%d seed=%lu adversary=%d steps=%ld decisions=%ld calls=%ld errors=%d warnings=%d leftover=%d/%d/%d leaks=%d\n",
+               simmpi_code_name (code), P, o->seed, o->adversary, S.steps,
+               S.ndecisions, S.ncalls, S.nerrors, S.nwarns, R.nleftover_msgs,
+               R.nleftover_reqs, R.nleftover_colls, R.nleaks);
+    if (text.p != NULL) {
+      sb_puts (&head, text.p);
+    }
+    sb_free (&text);
+    text = head;
+  }
+  {
+    int                 verbose = o->verbose;
+    cleanup ();
+    if (verbose && code != SIMMPI_OK) {
+      fputs (text.p, stderr);
+    }
+  }
+
+finish:
+  if (rep != NULL) {
+    *rep = R;
+    rep->text = text.p != NULL ? text.p : (char *) xcalloc (1, 1);
+  }
+  else {
+    sb_free (&text);
+  }
+  return R.code;
 }
